@@ -215,6 +215,7 @@ impl EditState {
 
     pub fn crop_rect(&mut self, rect: Rectangle) -> EngineResult<()> {
         let old_size = self.get_buffer().get_size();
+        let old_sauce_size = super::undo_operations::sauce_size(self.get_buffer());
         let mut old_layers = Vec::new();
         mem::swap(&mut self.get_buffer_mut().layers, &mut old_layers);
 
@@ -240,7 +241,7 @@ impl EditState {
             }
             self.get_buffer_mut().layers.push(new_layer);
         }
-        let op = super::undo_operations::Crop::new(old_size, rect.get_size(), old_layers);
+        let op = super::undo_operations::Crop::new(old_size, rect.get_size(), old_layers, old_sauce_size);
         self.push_plain_undo(Box::new(op))
     }
 
